@@ -47,6 +47,9 @@ CHECKS["C09"] = dict(cat="other", tech="SMT (z3) scheme-row identities on the tr
 CHECKS["C13"] = dict(cat="translation_validation", tech="symbolic execution of traced integrate on the re-discretised vs the directly built cell; DAG equality for all symbolic table entries and three backends; concrete side-checks of tables, SWC radius profiles and group membership",
    text="For a hand-built 4-branch cell (every branch, n in 1..4, sequences of two calls) and SWC cells (a generated spindle-soma morphology and the repository's small morphologies, initial ncomp -> new ncomp on every branch) the traced simulation after set_ncomp is compared node by node with that of the directly constructed cell. Tables, total lengths, radius profiles, connectivity and group membership are concrete side-checks against the direct construction.",
    note="set_ncomp itself is pandas/numpy code (not solver-decided); direct construction is the oracle; exact real arithmetic", ref="6 C13")
+CHECKS["C16"] = dict(cat="other", engine="E2-crosshair+E3-concolic", tech="CrossHair (z3-backed symbolic execution of the real _split_into_branches, symbolic type column per enumerated depth-first parent vector); numpy-object concolic execution of the real path-length / radius code with z3 per path (DART coverage)",
+   text="Topology: for every depth-first parent vector with <=5 (thorough <=6) points CrossHair confirms over all paths, with all point types symbolic, that branches partition the points, are single-type parent/child chains with the reported type, and start exactly at branch points and type changes (both soma variants). Geometry: the real numpy code runs on symbolic coordinates and radii; z3 proves per explored path that branch lengths are the traced path lengths under the documented conventions and that compartment radii are the clipped linear interpolant. read_swc's pandas last mile is a concrete side-check.",
+   note="structure (parent vectors, segment lengths for the radius part) enumerated; CrossHair verdicts other than 'Confirmed over all paths' are inconclusive; documented conventions are part of the oracle", ref="6 C16")
 NA = {}
 checks = []
 for pid, c in CHECKS.items():
